@@ -150,7 +150,7 @@ func TestC12(t *testing.T) {
 
 	g := gen.SQLInput()
 	p = c.rec.NewPart("rapid_fragments", "rapid over the SQL fragment grammar", true, false, "")
-	c.Rapid(p, 8, pick(25000, 600000), func(rt *rapid.T, sh int) ev.Case {
+	c.Rapid(p, 8, pick(100000, 900000), func(rt *rapid.T, sh int) ev.Case {
 		k := "cascade"
 		if rapid.Bool().Draw(rt, "kind") {
 			k = "embed"
@@ -158,7 +158,7 @@ func TestC12(t *testing.T) {
 		return ev.Case{Kind: k, In: g.Draw(rt, "s")}
 	})
 	p = c.rec.NewPart("rapid_gate_mutants", "rapid: attack member / gated input with inserted or removed gate bytes (', \", #, --x, -- , LF) and 1-4 generic edits", true, false, "")
-	c.Rapid(p, 8, pick(20000, 500000), func(rt *rapid.T, sh int) ev.Case {
+	c.Rapid(p, 8, pick(80000, 700000), func(rt *rapid.T, sh int) ev.Case {
 		var s string
 		if rapid.Bool().Draw(rt, "src") {
 			s = rapid.SampledFrom(att).Draw(rt, "att")
